@@ -269,7 +269,8 @@ def generate(rng, cfg):
                 U = rng.choice(sorted(names_used[c]))
                 if rng.random() < 0.6:
                     trace.append([0, "mutate_params", {"comp": c, "name": U, "param": f"X-MUT{len(trace)}",
-                                                       "v": f"v{len(trace)}"}])
+                                                       "v": f"v{len(trace)}",
+                                                       "how": rng.choice(["set", "set", "pop", "append-list", "pop-last"])}])
                 else:
                     trace.append([0, "del_prop", {"comp": c, "name": rng.choice([U, U.lower(), U.title()]),
                                                   "how": rng.choice(["pop", "delitem"])}])
@@ -548,8 +549,22 @@ def run_variant(trace, res, with_observers, tag, stepbase=0, checks=True):
                 if not hasattr(value, "params"):
                     res.skipped += 1
                     continue
-                value.params[a["param"]] = a["v"]
-                B.mutated.append(a["param"])
+                how = a.get("how", "set")
+                keys = sorted(value.params.keys())
+                if how == "pop" and keys:
+                    value.params.pop(keys[0])                  # C-level pop: no __delitem__
+                elif how == "pop-last" and keys:
+                    # not popitem(): which item is last depends on the insertion order that permutations vary
+                    value.params.pop(keys[-1].lower())
+                elif how == "append-list":
+                    lists = [k for k in keys if isinstance(value.params[k], list)]
+                    if lists:
+                        value.params[lists[0]].append("mailto:extra@x.org")   # in-place edit of a list value
+                    else:
+                        value.params[a["param"]] = [a["v"], "second"]
+                else:
+                    value.params[a["param"]] = a["v"]
+                    B.mutated.append(a["param"])
                 if checks:
                     res.probe("params_mutated_in_place")
             elif op == "del_prop":
